@@ -25,3 +25,20 @@ extern "C" void h_case_helpers()
     }
     __CPROVER_assert(ok && r == s.c_str(), "C09 the case helpers return the whole word in the requested case ('/' and '.' as '_' for constants)");
 }
+
+/* C05: PrettyTmpName is handed entity keywords taken from the exchange file (Registry::FindEntity, InstMgr look-ups): for a name of any
+ * length, with underscores anywhere, every write stays inside its static buffer of BUFSIZ+1 bytes (cbmc's bounds checks) and the result
+ * is terminated; PrettyNewName's copy fits the block it allocates */
+extern "C" void h_pretty_name()
+{
+    IN_ARR(char, in_w, WN + 1); IN(int, in_which);
+    in_w[WN] = 0;
+    if (in_which) {
+        const char *r = PrettyTmpName(in_w);
+        int term = 0; for (int i = 0; i <= BUFSIZ; i++) if (r[i] == 0) term = 1;
+        __CPROVER_assert(term, "C05 the pretty name is terminated inside its buffer");
+    } else {
+        char *r = PrettyNewName(in_w);
+        __CPROVER_assert(strlen(r) <= strlen(in_w), "C05 the copied pretty name is no longer than the name it was made from");
+    }
+}
